@@ -151,6 +151,7 @@ func ZZ_C17_batches() {
 		c.Pods = append(c.Pods, zzPod("dup"+zzNodeName(2*k+i), zzNodeName(2*k+i), zzRSName, zzHashNew, 0, corev1.PodRunning, true, nondet.Base().Add(-60*1e9)))
 	}
 	c.InjectFaults = true
+	c.InjectNotFound = true // an error is an error: a NotFound answer to a delete is reported like any other
 	_, err := zzReconcile(zzReconciler(c, false), zzNS, rsNew.Name)
 
 	nCreate, nDelete, nCleanup := 0, 0, 0
